@@ -26,7 +26,10 @@ class CFGVariableConverter:
 
     def _get_state_index(self, state):
         """Get the state index"""
-        if state.index_cfg_converter is None:
+        if state.index_cfg_converter is None or \
+                self._inverse_states_d.get(state) != \
+                state.index_cfg_converter:
+            # The index may have been left by another converter
             self._set_index_state(state)
         return state.index_cfg_converter
 
@@ -39,7 +42,10 @@ class CFGVariableConverter:
 
     def _get_symbol_index(self, symbol):
         """Get the symbol index"""
-        if symbol.index_cfg_converter is None:
+        if symbol.index_cfg_converter is None or \
+                self._inverse_stack_symbol_d.get(symbol) != \
+                symbol.index_cfg_converter:
+            # The index may have been left by another converter
             self._set_index_symbol(symbol)
         return symbol.index_cfg_converter
 
